@@ -663,10 +663,12 @@ class IkeSa(object):
         payload_nonce = response.get_payload(Payload.Type.NONCE, encrypted)
         payload_ke = response.get_payload(Payload.Type.KE, encrypted)
 
-        # select the peers proposal.
-        if not payload_sa.proposals[0].is_subset(self.chosen_proposal):
-            raise NoProposalChosen('Responder proposal is not a subset of what we sent')
-        self.chosen_proposal = payload_sa.proposals[0]
+        # select the peers proposal: it must be one transform of every type we offered, each taken from our offer
+        chosen_proposal = payload_sa.proposals[0]
+        intersection = self.chosen_proposal.intersection(chosen_proposal)
+        if intersection is None or intersection != chosen_proposal:
+            raise NoProposalChosen('Responder proposal is not a valid choice from what we sent')
+        self.chosen_proposal = chosen_proposal
 
         # update peer spi (take it from the payload SA if old_sa_d is not none ie. IKE_SA rekey)
         self.peer_spi = response.spi_r if old_sk_d is None else self.chosen_proposal.spi
